@@ -600,6 +600,128 @@ theorem covered_of_clean {b : BC} (h : b.clean = true) : b.Covered := by
 theorem covered_clear (b : BC) (h : b.Covered) : b.clear.Covered :=
   covered_of_clean (clear_clean h)
 
+/-! `Covered` is kept by every mutating operation -/
+
+theorem grow_spec (m : List (Option Nat)) (k j : Nat) (hj : j < (grow m k).length)
+    (hne : (grow m k)[j]? ≠ some none) : j < m.length ∧ m[j]? ≠ some none := by
+  unfold grow at hj hne
+  split at hj
+  · rename_i hk
+    simp only [hk, if_true] at hne
+    by_cases hjl : j < m.length
+    · rw [List.getElem?_append_left hjl] at hne
+      exact ⟨hjl, hne⟩
+    · exfalso
+      apply hne
+      rw [List.getElem?_append_right (by omega), List.getElem?_replicate]
+      simp only [List.length_append, List.length_replicate] at hj
+      have : j - m.length < k + 1 - m.length := by omega
+      simp [this]
+  · rename_i hk
+    simp only [hk, if_false] at hne
+    exact ⟨hj, hne⟩
+
+theorem covered_insert (b : BC) (k : Nat) (w : Rat) (h : b.Covered) : (b.insert k w).Covered := by
+  unfold BC.insert
+  split
+  · rename_i idx hidx
+    split
+    · rename_i key old hkey
+      intro j hj hne
+      obtain ⟨hj', hne'⟩ := grow_spec b.map k j hj hne
+      obtain ⟨kw, hkw, hk⟩ := h j hj' hne'
+      obtain ⟨p, hp⟩ := List.mem_iff_getElem?.1 hkw
+      have hidxlt : idx < b.keys.length := by
+        by_cases hlt : idx < b.keys.length
+        · exact hlt
+        · rw [List.getElem?_eq_none (by omega)] at hkey; exact absurd hkey (by simp)
+      by_cases hpi : idx = p
+      · subst hpi
+        rw [hkey] at hp
+        simp only [Option.some.injEq] at hp
+        refine ⟨(key, w), List.mem_of_getElem? (List.getElem?_set_self hidxlt), ?_⟩
+        rw [← hk, ← hp]
+      · refine ⟨kw, List.mem_of_getElem? (i := p) ?_, hk⟩
+        show (b.keys.set idx (key, w))[p]? = some kw
+        rw [List.getElem?_set_ne hpi]; exact hp
+    · exact h
+  · intro j hj hne
+    simp only [List.length_set] at hj
+    by_cases hkj : k = j
+    · exact ⟨(k, w), by simp, hkj⟩
+    · have hne2 : (grow b.map k)[j]? ≠ some none := by
+        intro h2; apply hne
+        show ((grow b.map k).set k (some b.keys.length))[j]? = some none
+        rw [List.getElem?_set_ne hkj]; exact h2
+      obtain ⟨hj', hne'⟩ := grow_spec b.map k j hj hne2
+      obtain ⟨kw, hkw, hk⟩ := h j hj' hne'
+      exact ⟨kw, List.mem_append_left _ hkw, hk⟩
+
+theorem covered_removeIndex (b : BC) (i : Nat) (h : b.Covered) : (b.removeIndex i).Covered := by
+  unfold BC.removeIndex
+  split
+  · rename_i x l hx hl
+    intro j hj hne
+    simp only [List.length_set] at hj
+    have hilt : i < b.keys.length := by
+      by_cases hlt : i < b.keys.length
+      · exact hlt
+      · rw [List.getElem?_eq_none (by omega)] at hx; exact absurd hx (by simp)
+    rw [List.getLast?_eq_getElem?] at hl
+    by_cases hjx : x.1 = j
+    · exfalso; apply hne
+      show ((b.map.set l.1 (some i)).set x.1 none)[j]? = some none
+      rw [hjx, List.getElem?_set_self (by simpa [List.length_set] using hj)]
+    · have hne1 : (b.map.set l.1 (some i))[j]? ≠ some none := by
+        intro h2; apply hne
+        show ((b.map.set l.1 (some i)).set x.1 none)[j]? = some none
+        rw [List.getElem?_set_ne hjx]; exact h2
+      by_cases hjl : l.1 = j
+      · -- the former last key now sits at position i < len - 1
+        have hi2 : i < b.keys.length - 1 := by
+          by_cases hlt : i < b.keys.length - 1
+          · exact hlt
+          · exfalso
+            have : i = b.keys.length - 1 := by omega
+            rw [this, hl] at hx
+            simp only [Option.some.injEq] at hx
+            exact hjx (hx ▸ hjl)
+        refine ⟨l, List.mem_of_getElem? (i := i) ?_, hjl⟩
+        show ((b.keys.set i l).dropLast)[i]? = some l
+        rw [List.getElem?_dropLast]
+        simp only [List.length_set, hi2, if_true]
+        exact List.getElem?_set_self hilt
+      · have hne2 : b.map[j]? ≠ some none := by
+          intro h2; apply hne1
+          rw [List.getElem?_set_ne hjl]; exact h2
+        obtain ⟨kw, hkw, hk⟩ := h j hj hne2
+        obtain ⟨p, hp⟩ := List.mem_iff_getElem?.1 hkw
+        have hplt : p < b.keys.length := by
+          by_cases hlt : p < b.keys.length
+          · exact hlt
+          · rw [List.getElem?_eq_none (by omega)] at hp; exact absurd hp (by simp)
+        have hpi : i ≠ p := by
+          intro hip; subst hip
+          rw [hx] at hp; simp only [Option.some.injEq] at hp
+          exact hjx (hp ▸ hk)
+        have hplast : p ≠ b.keys.length - 1 := by
+          intro hpl
+          rw [hpl, hl] at hp; simp only [Option.some.injEq] at hp
+          exact hjl (hp ▸ hk)
+        refine ⟨kw, List.mem_of_getElem? (i := p) ?_, hk⟩
+        show ((b.keys.set i l).dropLast)[p]? = some kw
+        rw [List.getElem?_dropLast]
+        have : p < b.keys.length - 1 := by omega
+        simp only [List.length_set, this, if_true]
+        rw [List.getElem?_set_ne hpi]; exact hp
+  · exact h
+
+theorem covered_remove (b : BC) (k : Nat) (h : b.Covered) : (b.remove k).Covered := by
+  unfold BC.remove
+  split
+  · exact covered_removeIndex b _ h
+  · exact h
+
 end BC
 
 end Qmc.Pool
